@@ -76,6 +76,21 @@ def main(tier, seed, replay=None):
         # keep sets are passed in a random order (the code must treat them as sets)
         keeps = [[int(v) for v in rs.permutation(s)] for s in subsets]
         bad_keeps = [[], [scope[0], scope[0]], [scope[0], max(scope) + 3], [max(scope) + 3], list(scope) + [max(scope) + 1]]
+        # the kept-set guard is about the ARGUMENT, not about the circuit: switching the structural checks off (the public
+        # context flag) must not switch it off
+        from deeprob.context import ContextState as _CS
+        for keep in bad_keeps:
+            try:
+                with _CS(check_spn=False):
+                    mr_ = marginalize(root, list(keep), copy=True)
+                rep.violation(dict(kind="invalid-kept-set-accepted", circuit=tab.brief(), keep=keep, context="ContextState(check_spn=False)",
+                                   what="empty, duplicated or out-of-scope kept sets must be rejected whatever the check_spn flag is",
+                                   returned_scope=[int(v) for v in mr_.scope]), True)
+            except ValueError:
+                pass
+            except Exception as e:
+                rep.violation(dict(kind="invalid-kept-set-not-rejected-with-ValueError", circuit=tab.brief(), keep=keep,
+                                   context="ContextState(check_spn=False)", error=f"{type(e).__name__}: {e}"), True)
         for keep in keeps + bad_keeps:
             try:
                 mroot = marginalize(root, list(keep), copy=True)
